@@ -335,7 +335,8 @@ func TestProp(t *testing.T) {
 			"MultiLineString/Polygon receivers; plus exhaustive enumeration of all 3-vertex (quick) and 4-vertex (thorough) rings over a 4x4 integer " +
 			"grid x the 7x7 half-step point grid. Non-trivial = query point on an edge/vertex, or sharing an x or y ordinate with a ring vertex " +
 			"(ray through vertex / bounding-line cases), or >=2 rings of >=3 vertices; receivers with >=2 vertices. Distinct by case hash." +
-			" Round 9: rings whose last vertex is one to three floating-point steps from the first ('nearly closed'); query points at exactly the height or abscissa of a vertex.",
+			" Round 9: rings whose last vertex is one to three floating-point steps from the first ('nearly closed'); query points at exactly the height or abscissa of a vertex." +
+			" Round 10: receivers built with vkit.SharedGeom (point lists out of order and with gaps in one array, checked for changes).",
 		Assumptions: []string{"coordinates k/4 with |k|<=33 make all cross products exact in float64, so the oracle is exact on the grid"},
 		Gen:         gen,
 		Run:         run,
